@@ -129,19 +129,18 @@ def subst_env(base, args, parse_arg):
         else:
             vals[name] = ("text", str(a) if not isinstance(a, float) else repr(a).rstrip("0").rstrip(".") if "." in repr(a) else repr(a))
 
-    def var(k, f):
-        if k in vals:
-            kind, x = vals[k]
-            return pv_eval(base, x) if kind == "tree" else x
-        return base.var(k, f)
-
-    def count(k):
-        if "var_count" in vals:
-            kind, x = vals["var_count"]
-            if kind == "text":
-                from fractions import Fraction
-                return Fraction(x)
-            # renamed count: the single variable of the argument
+    # the substituted environment, as data: variables bound to the (already evaluated) argument texts ...
+    new_vars = dict(base.vars)
+    for k, (kind, x) in vals.items():
+        new_vars[k] = pv_eval(base, x) if kind == "tree" else x
+    # ... and the count: a literal fixes it for every range/plural of the target, a `{{ var }}` renames it
+    counts, count_default = dict(base.counts), base.count_default
+    if "var_count" in vals:
+        kind, x = vals["var_count"]
+        if kind == "text":
+            from fractions import Fraction
+            counts, count_default = {}, Fraction(x)
+        else:
             names = []
 
             def walk(v):
@@ -152,11 +151,10 @@ def subst_env(base, args, parse_arg):
                         walk(y)
             walk(x)
             if len(names) == 1:
-                return base.count(names[0])
-        return base.count(k)
-    e = Env(var=var, comp=base.comp, count=count, cat=base.cat)
-    e.side_text = base.side_text
+                counts, count_default = {}, base.count(names[0])
+    e = base.derive(vars=new_vars, counts=counts, count_default=count_default)
     return e
+
 
 
 def fallback_witnesses():
@@ -253,13 +251,13 @@ def make_oracle(binp):
             if tv is None or tv["t"] == "default":
                 continue
 
-            def cat(rule, c, l=l):
-                key = ("u:%d" % c) if c.denominator == 1 and c >= 0 else "f:" + str(float(c))
-                return cats.get((l, rule, key), "other")
             from fractions import Fraction
             CNT = {"var_count": 3, "var_n": 5, "var_total": 1}      # distinct per count variable: a renamed count must stay renamed
-            base = Env(count=lambda k: Fraction(CNT.get(k, 2)), cat=cat,
-                       var=lambda k, f: str(CNT[k]) if k in CNT else "⟦" + k + "⟧")
+            cat_tbl = {}
+            for (ll, rule, key), f in cats.items():
+                if ll == l and key[:2] in ("u:", "f:"):
+                    cat_tbl[(rule, Fraction(key[2:]))] = f
+            base = Env(vars={k: str(v) for k, v in CNT.items()}, var_fmt=False, counts=CNT, count_default=2, cats=cat_tbl)
             base.side_text = f"SIDE-{l}"
             # expected text of r_d: wrap of the text of r_(d-1) under the substituted environment; computed outside-in
             for d in range(1, g["depth"] + 1):
